@@ -1,7 +1,7 @@
 (* SeqLocal.v -- the statements of property C16: the executor model (model/Exec.v, RunExec.v: [run1], one run
    of the interpreter on one peer) iterated on one peer or over a network of hosts, against the sequential
    reading (model/SeqSem.v).  Definitions only. *)
-From Aqua Require Import Base Json Air Trace Handler Values Scalars Lens Exec RunExec SeqSem SeqFrag.
+From Aqua Require Import Base Json Air Trace Handler Values Scalars Lens Exec RunExec ExecStreams SeqSem SeqFrag.
 From Coq Require Import Permutation.
 Open Scope N_scope.
 Open Scope list_scope.
@@ -26,22 +26,26 @@ Section Statements.
   (* ---------------------------------------------------------------------------------------- *)
   (* one peer: run, hand every requested answer back, run again, ... until a run requests nothing.
      The result is the list of the batches of calls the runs requested, in order. *)
-  Fixpoint local_rounds (rounds fuel : nat) (p : string) (s : instr) (prev : idata) (results : list (N * service_answer))
-    : option (list (list call_ev)) :=
+  Fixpoint local_rounds_with (runf : nat -> run_input -> RunExec.outcome) (rounds fuel : nat) (p : string) (s : instr)
+           (prev : idata) (results : list (N * service_answer)) : option (list (list call_ev)) :=
     match rounds with
     | O => None
     | S r =>
         let params := {| rp_init_peer := p; rp_current_peer := p; rp_timestamp := timestamp; rp_ttl := ttl |} in
-        match run1 fuel {| ri_script := s; ri_params := params; ri_prev := prev; ri_cur := empty_data; ri_results := results |} with
+        match runf fuel {| ri_script := s; ri_params := params; ri_prev := prev; ri_cur := empty_data; ri_results := results |} with
         | OutNewData _ d next reqs _ =>
             match next, reqs with
             | [], [] => Some []
-            | [], _ => option_map (cons (map (call_of_request p) reqs)) (local_rounds r fuel p s d (map (answer_request p) reqs))
+            | [], _ => option_map (cons (map (call_of_request p) reqs))
+                                  (local_rounds_with runf r fuel p s d (map (answer_request p) reqs))
             | _, _ => None
             end
         | _ => None
         end
     end.
+  (* the executor of stage 1 (no stream instruction) and the complete one (ExecStreams.v) *)
+  Definition local_rounds := local_rounds_with run1.
+  Definition local_rounds2 := local_rounds_with run2.
 
   (* every call is addressed to p by a literal or by %init_peer_id% *)
   Fixpoint all_local (p : string) (i : instr) : bool :=
@@ -77,15 +81,22 @@ Section Statements.
         batches_ready p fs s batches.
 
   (* the sub-fragment of the proved single-peer theorem: straight-line scripts -- call (target, service and
-     function literal; arguments literals or plain scalars), seq, xor, match / mismatch, fail, null, never *)
+     function literal; arguments literals or plain scalars), ap of a literal or a plain scalar to a scalar, seq, xor,
+     match / mismatch, fail, null, never *)
   Definition lin_value (v : value) : bool :=
     match v with
     | VInitPeerId | VTimestamp | VTTL | VLiteral _ | VNumber _ | VBoolean _ | VEmptyArray | VScalar _ => true
     | _ => false
     end.
+  Definition lin_ap (a : ap_arg) : bool :=
+    match a with
+    | AInitPeerId | ATimestamp | ATTL | ALiteral _ | ANumber _ | ABoolean _ | AEmptyArray | AScalar _ => true
+    | _ => false
+    end.
   Fixpoint linear (p : string) (i : instr) : bool :=
     match i with
     | INull | INever => true
+    | IAp _ a (ApScalar _) => lin_ap a
     | ISeq a b | IXor a b => linear p a && linear p b
     | ICall _ t args out =>
         match t_peer t with PInitPeerId => true | PLiteral q => String.eqb q p | _ => false end &&
@@ -110,7 +121,8 @@ Section Statements.
       reading everything_known p fs s = Out cs e st ->
       N.of_nat (length cs) < 4294967295 ->               (* request ids are u32 *)
       exists rounds fuel,
-        local_rounds rounds fuel p s empty_data [] = Some (map (fun c => [c]) cs).
+        local_rounds rounds fuel p s empty_data [] = Some (map (fun c => [c]) cs) /\
+        local_rounds2 rounds fuel p s empty_data [] = Some (map (fun c => [c]) cs).
 
   (* ---------------------------------------------------------------------------------------- *)
   (* several peers: hosts, particles in flight, histories *)
